@@ -6,7 +6,10 @@
 // BuiltinCloudControl, CommandExecutor and the server's own command handlers). Clients A, B, C
 // are online on their own control connections and own real objects created through the real
 // services: mapping m1 (listen A, target B), connection code k1 (owner B), HTTP domain d1
-// (owner B). For each command the driver logs the response class, the objects identified in the
+// (owner B); besides those the already used code k0 (owner B, behind m1), and C's own code k2 /
+// self-mapping m3, which exist so that every client has a mapping: every control-type login then
+// triggers exactly one asynchronous configuration push, which the driver waits for - nothing the
+// server writes on its own is in flight when a command is sent. For each command the driver logs the response class, the objects identified in the
 // response, a semantic diff of the store and every packet that reached another connection; for
 // packets that carry identity fields the same steps are replayed on a twin server without them.
 // spec/CommandsTrace.tla judges the trace with the policy table of spec/CommandsPolicy.tla.
@@ -1223,7 +1226,10 @@ func selfTest(env *fw.Env, acc []*fw.Trace) []*fw.Trace {
 			}
 			if e["claims"] != "absent" && e["ref"] != nil {
 				// 7. the identity fields changed the outcome
-				add("claims-matter", t, func(evs []fw.Event) []fw.Event { evs[i]["ref"] = fmt.Sprint(evs[i]["ref"]) + " diff=del:mapping:m1:A"; return evs })
+				add("claims-matter", t, func(evs []fw.Event) []fw.Event {
+					evs[i]["ref"] = fmt.Sprint(evs[i]["ref"]) + " diff=del:mapping:m1:A"
+					return evs
+				})
 			}
 			if actor != "none" && len(strs(e["objp"])) == 2 && e["ty"] == "SOCKS5TunnelRequestCmd" && len(fw.MustJSON(e["deliv"])) > 2 {
 				// 8. a tunnel request relayed although the caller is the mapping's target, not its listen client
@@ -1250,10 +1256,10 @@ func genFixes() string {
 	return allFixes
 }
 
-func job(name, sets, fixes string, hs, cmds int, resp, emit bool) fw.TLCJob {
+func job(name, sets, fixes string, cmds int, resp, emit bool) fw.TLCJob {
 	b := map[bool]string{true: "TRUE", false: "FALSE"}
 	return fw.TLCJob{Name: name, Module: "Commands", Cfg: "Commands_mc.cfg", Workers: 4,
-		Consts: map[string]string{"SETS": sets, "FIXES": fixes, "HS": strconv.Itoa(hs), "CMDS": strconv.Itoa(cmds), "RESP": b[resp], "EMIT": b[emit]}}
+		Consts: map[string]string{"SETS": sets, "FIXES": fixes, "CMDS": strconv.Itoa(cmds), "RESP": b[resp], "EMIT": b[emit]}}
 }
 
 const (
@@ -1268,31 +1274,38 @@ func main() {
 		ModelJobs: func(env *fw.Env) []fw.TLCJob {
 			if env.Tier == "thorough" {
 				return []fw.TLCJob{
-					job("mc: server+special rows, 4 commands, CommandResp too, patched tree", serverSets, allFixes, 4, 4, true, false),
-					job("mc: server+special rows, 4 commands, CommandResp too, unpatched tree (deviations masked)", serverSets, "{}", 4, 4, true, false),
-					job("mc: library rows, 4 commands, CommandResp too, patched tree", librarySets, allFixes, 4, 4, true, false),
-					job("mc: library rows, 4 commands, CommandResp too, unpatched tree (deviations masked)", librarySets, "{}", 4, 4, true, false),
+					job("mc: server+special rows, 4 commands, CommandResp too, patched tree", serverSets, allFixes, 4, true, false),
+					job("mc: server+special rows, 4 commands, CommandResp too, unpatched tree (deviations masked)", serverSets, "{}", 4, true, false),
+					job("mc: library rows, 4 commands, CommandResp too, patched tree", librarySets, allFixes, 4, true, false),
+					job("mc: library rows, 4 commands, CommandResp too, unpatched tree (deviations masked)", librarySets, "{}", 4, true, false),
 				}
 			}
 			return []fw.TLCJob{
-				job("mc: server+special rows, 3 commands, patched tree", serverSets, allFixes, 4, 3, false, false),
-				job("mc: server+special rows, 3 commands, unpatched tree (deviations masked)", serverSets, "{}", 4, 3, false, false),
-				job("mc: library rows, 3 commands, patched tree", librarySets, allFixes, 4, 3, false, false),
+				job("mc: server+special rows, 3 commands, patched tree", serverSets, allFixes, 3, false, false),
+				job("mc: server+special rows, 3 commands, unpatched tree (deviations masked)", serverSets, "{}", 3, false, false),
+				job("mc: library rows, 3 commands, patched tree", librarySets, allFixes, 3, false, false),
 			}
 		},
 		GenJobs: func(env *fw.Env) []fw.TLCJob {
+			thorough := env.Tier == "thorough"
 			jobs := []fw.TLCJob{
-				job("gen: server+special rows x auth states", serverSets, genFixes(), 4, 1, env.Tier == "thorough", true),
-				job("gen: library rows x auth states", librarySets, genFixes(), 4, 1, env.Tier == "thorough", true),
+				job("gen: server+special rows x auth states", serverSets, genFixes(), 1, thorough, true),
+				job("gen: library rows x auth states", librarySets, genFixes(), 1, thorough, true),
 			}
 			// command sequences (the store evolves: generate / activate / delete / report ...), drawn at random
 			num, depth := "num=150", 8
-			if env.Tier == "thorough" {
-				num, depth = "num=1500", 10
+			if thorough {
+				num, depth = "num=3000", 10
 			}
-			seq := job("gen: random command sequences", serverSets, genFixes(), 4, 4, false, true)
+			seq := job("gen: random command sequences", serverSets, genFixes(), 4, false, true)
 			seq.Simulate, seq.Depth, seq.Seed, seq.Workers = num, depth, env.Seed, 1
-			return append(jobs, seq)
+			jobs = append(jobs, seq)
+			if thorough {
+				lib := job("gen: random command sequences, library rows", librarySets, genFixes(), 4, false, true)
+				lib.Simulate, lib.Depth, lib.Seed, lib.Workers = "num=500", depth, env.Seed+1, 1
+				jobs = append(jobs, lib)
+			}
+			return jobs
 		},
 		Expand: func(env *fw.Env, src string, raw json.RawMessage) []json.RawMessage {
 			if !strings.Contains(src, "sequences") {
@@ -1307,7 +1320,7 @@ func main() {
 		MaxBehSrc: func(env *fw.Env, src string) int {
 			if strings.Contains(src, "sequences") {
 				if env.Tier == "thorough" {
-					return 3000
+					return 6000
 				}
 				return 300
 			}
@@ -1326,7 +1339,10 @@ func main() {
 			fmt.Println()
 			{
 				var rows []string
-				bindBy.Range(func(k, v any) bool { rows = append(rows, fmt.Sprintf("%v=%d", k, v.(*atomic.Int64).Load())); return true })
+				bindBy.Range(func(k, v any) bool {
+					rows = append(rows, fmt.Sprintf("%v=%d", k, v.(*atomic.Int64).Load()))
+					return true
+				})
 				sort.Strings(rows)
 				if len(rows) > 0 {
 					fmt.Printf("[binding] differing commands by policy row: %s\n", strings.Join(rows, " "))
@@ -1334,6 +1350,11 @@ func main() {
 			}
 			if os.Getenv("VERIF_DEBUG") != "" {
 				fmt.Printf("[timing] runs=%d newRun=%v cmd=%v (snapshots %v)\n", nRuns.Load(), time.Duration(tNewRun.Load()), time.Duration(tCmd.Load()), time.Duration(tSnap.Load()))
+			}
+			for _, t := range ts {
+				if t.Status == fw.DriverError {
+					return fmt.Errorf("%s", t.Note)
+				}
 			}
 			// every dispatched row must have been driven at least once
 			driven := map[string]bool{}
